@@ -21,9 +21,27 @@ MANIFEST = dict(
           "the model are regenerated from the source on every run; the extracted model is compared with the real library "
           "(scores within 1e-9 of the summed squares, groups and table look-ups exactly, merged lists structurally) on random "
           "small datasets with dyadic values; an independent long-double brute force and the consistency clauses are checked "
-          "directly on the implementation for all 8 learners and 4 criteria. k-split tables and decision trees are heuristics: "
-          "only the consistency clauses are claimed; AIC/AICc/BIC scores are searched, not proved."),
-    note=("Coq kernel; translator (9 integer kernels of wlearner/util.cpp, table.cpp, dtree.cpp, dataset/iterator.cpp); extraction "
+          "directly on the implementation for all 8 learners and 4 criteria. "
+          "EXTENSION (C10_Ext_Defs / C10_Ext / C10_ExtCrit, stage `ext`): the general top-k statement of the k-best table for every k "
+          "(the k-th partial sum of the gain sweep is a lower bound of the RSS of every table on at most k label sets -- exchange "
+          "argument over the sorted gains -- and is attained by the stored table; the stored order is std::sort's lexicographic order "
+          "of the (delta, hash) pairs); the k-split table as the source builds it (accumulator_t::cluster: greedy agglomerative "
+          "merging of the closest mean outputs, NOT a contiguous split of sorted means): every merge keeps one valid group per label "
+          "set and never lowers the RSS, so the RSS-criterion fit is the dense optimum; optimality for a fixed number of groups is "
+          "refuted with a witness; decision trees of any depth: a checked well-formedness of the node table implies that every sample "
+          "is dropped at the first missing feature on its path or reaches exactly one in-range leaf which split() reports and predict() "
+          "adds, the fuel of the model is never exhausted, and a tree is the stump of its root composed with the walks from its "
+          "children; AIC / AICc / BIC translated from stats.h (shape pinned) with strict monotonicity in the RSS for fixed k, n "
+          "(the minimiser over a fixed-size class is the RSS minimiser) over the reals. Tie of the extension: every fitted k-best / "
+          "k-split table and tree of every criterion is replayed by the extracted model (stored label sets, label -> group map, group "
+          "means, tree_wf, breadth-first split and per-sample walk vs split()), the AIC/AICc/BIC scores are compared with the criterion "
+          "of the model's exact RSS candidates; direct oracles: all subsets of k label sets, group means, own tree traversal on all "
+          "samples, every pair = stump of the samples reaching it, long-double criteria."),
+    note=("Coq kernel; translator (9 + 16 kernels of wlearner/util.cpp, table.cpp, dtree.cpp, stump.cpp, hinge.cpp, affine.cpp, "
+          "core/stats.h, dataset/iterator.cpp; the AIC/AICc/BIC expressions are translated structurally with the logarithms as named "
+          "inputs and read over the reals); the criterion theorems use the standard real-number axioms; the driver evaluates the "
+          "criteria in OCaml floats (same libm) from the exact RSS, k-split comparisons are skipped when a merge step of the model is a "
+          "(near-)tie (counted as ties_skipped); extraction "
           "with ExtrOcamlZBigInt (Zarith); harness against the library built from the working tree + OCaml driver; optimality is "
           "over exact arithmetic (the running-moment formula r2 - r1^2/x0 loses digits by cancellation: 1e-9 relative tolerance); "
           "dstep fits on a categorical feature without any selected value are excluded (out-of-bounds read in score_kbest, "
@@ -36,7 +54,8 @@ VARIANTS = ["rel"]
 
 CHUNKS = {"quick": (2, 1500), "thorough": (40, 2500)}   # (chunks, cases per chunk); the chunk id perturbs the seed
 COUNTERS = ("cases", "fits", "nofits", "obs", "optimal_checks", "reproduce_checks", "consistency_checks", "dstep_excluded",
-            "scale_checks", "merges", "merged_pairs", "depth1_checks", "thread_checks", "missing_samples", "tie_columns")
+            "scale_checks", "merges", "merged_pairs", "depth1_checks", "thread_checks", "missing_samples", "tie_columns",
+            "ext_topk", "ext_crit", "ext_ksplit", "ext_tree", "ext_treefit", "ext_topk_partial")
 HISTS = ("learners", "kinds", "subsets", "nhist", "obs_kinds")
 MODEL_LINES = ("CONST ", "CASE ", "F ", "G ", "FIT ", "PRED ", "SPLIT ", "SCALE ", "MERGE ")
 
@@ -171,6 +190,7 @@ def run(tier, replay=None):
     distinct = set()
     samples = []
     evaluations = checked = 0
+    ext_model = collections.Counter()          # the EXT-DONE counters of the driver (extension stage)
     cmd_of = lambda ch, only=None: "VERIF_SEED=%d %s %s %d %d%s" % (r.seed, exe, tier, ncases, ch, "" if only is None else " %d" % only)
     for ch in range(nchunks):
         rc, lines, rc2, mout = _run_chunk(exe, drv, r.seed, tier, ncases, ch)
@@ -209,6 +229,9 @@ def run(tier, replay=None):
         for l in mout.split("\n"):
             if l.startswith(("MISMATCH", "PROPFAIL")):
                 cm.append(l)
+            elif l.startswith("EXT-DONE"):
+                for k, v in _kv(l).items():
+                    ext_model[k] += int(v)
             elif l.startswith("MODEL-DONE"):
                 got = int(l.split("checked=")[1].split()[0])
         checked += got
@@ -250,7 +273,9 @@ def run(tier, replay=None):
         # PROPFAIL = the property's own statement evaluated exactly on what the implementation returned; MISMATCH fit = the
         # returned score is not the proved optimum of the class on this input (a concrete failing input either way); the other
         # MISMATCH kinds are a broken tie unless a direct oracle failed as well
-        concrete = kind.startswith("PROPFAIL") or kind == "MISMATCH fit" or bool(impl_fail)
+        # extension: a stored selection / grouping / node table / criterion score that is not the one the theorems are about is a
+        # concrete input on which the implementation leaves the proved behaviour
+        concrete = kind.startswith("PROPFAIL") or kind == "MISMATCH fit" or bool(impl_fail) or kind.startswith("MISMATCH ext-")
         r.violation("corr-%s" % kind.replace(" ", "-"), {"kind": "model/implementation disagreement", "what": kind,
                                                          "failure": shortest[:6000], "mismatches_of_this_kind": len(same),
                                                          "tier": tier, "chunk": sch, "cases_per_chunk": ncases, "case_index": idx,
@@ -269,7 +294,10 @@ def run(tier, replay=None):
                     fingerprint="C10-dstep-empty-feature-out-of-bounds")
     vlib.handle_coq_failure(r, cres)
     vlib.proof_coverage(r, cres, "make -C coq theories/Properties_C10.vo && coqc theories/Properties_C10.v (Print Assumptions)",
-                        ["tools/translate.py (9 integer kernels of src/wlearner/{util,table,dtree}.cpp, src/dataset/iterator.cpp)",
+                        ["tools/translate.py (25 kernels of src/wlearner/{util,table,dtree,stump,hinge,affine}.cpp, include/nano/core/stats.h, "
+                         "src/dataset/iterator.cpp; AIC/AICc/BIC structurally, logarithms as named inputs)",
+                         "extension: the criteria are evaluated by the driver in OCaml floats from the exact RSS (interval of width 1e-9 * sum r^2); "
+                         "the real-valued model crit_score is tied to the translated expressions by the shape lemmas only",
                          "extraction: ExtrOcamlBasic + ExtrOcamlZBigInt (positive/Z mapped to Zarith big integers)",
                          "ocaml/c10_driver.ml (exact double->Q conversion, tolerances), harness/c10_wlearner.cpp, g++ -O2",
                          "the model computes the bins of a table by filtering the samples of a key (the code scatters them in one pass) and "
@@ -295,6 +323,13 @@ def run(tier, replay=None):
     cov["selected_samples_histogram"] = dict(hists["nhist"])
     cov["observations_outside_the_property"] = dict(hists["obs_kinds"])
     cov["observation_samples"] = [l[:600] for _, l in obs[:3]]
+    cov["extension_model_checks"] = dict(ext_model)
+    cov["extension_stage"] = ("driver: kbest = stored label sets / tables of every fitted k-best table vs the first k sorted (delta, hash) pairs; "
+                              "ksplit = rss score vs the proved optimum, label -> group map and group means of the trial with the fitted number "
+                              "of groups; tree = tree_wf of every fitted node table, tree_bfs and walk_from vs split(); crit = AIC/AICc/BIC score "
+                              "vs the criterion of the model's exact RSS candidates; ties_skipped / crit_skipped = comparisons left out because "
+                              "a merge step (or a delta order) of the model is a (near-)tie. harness: ext_topk (all subsets), ext_crit, ext_ksplit, "
+                              "ext_tree (structure + own traversal on all samples), ext_treefit (every pair = stump of its samples)")
     cov["mismatches"] = len(mism)
     cov["impl_direct_failures"] = len(impl_fail)
     cov["samples"] = samples
@@ -307,8 +342,12 @@ def run(tier, replay=None):
         "(the theorems are over Q)",
         "predictions of the fitted learner reproduce the score (implementation-side, and exactly on the fitted parameters with the "
         "specification function rss_of)",
-        "AIC / AICc / BIC scores: consistency clauses only",
-        "k-split tables and decision trees deeper than 1: consistency clauses only (greedy heuristics)",
+        "AIC / AICc / BIC: the floating-point scores (log) are compared with the criterion of the exact RSS within the interval of "
+        "1e-9 * sum r^2; hinge is left out (its criterion uses the sample count of the hinge side, observation hinge-criterion-n)",
+        "k-split: the moments of a cluster are the sums over its label sets and the stored tables reproduce the trial's RSS (tied by the "
+        "correspondence and the group-mean oracle, not proved); std::lower_bound on the sorted hashes finds every stored label set",
+        "decision trees: the breadth-first split over sample sets equals the per-sample walk (both run against split() on every fit); "
+        "the greedy fit (every pair is the stump of the samples reaching it, terminal test, score = sum over the leaves) is searched",
         "predictions depend only on the sample (other sample lists, repetitions), bit-exact, implementation-side",
         "score independent of the thread count 1..16 (bit-exact, implementation-side; the model-level statement is C10_chunks_irrelevant)"]
     cov["not_reached"] = ["feature values / gradients that are not small dyadics (cancellation in r2 - r1^2/x0 beyond 1e-9)",
